@@ -324,7 +324,8 @@ def _handler_names(h):
 
 
 def extract(parser_file=None):
-    """Returns {"prog": tree, "caught_unpickle": [...], "caught_integrity": [...], "isolation_none": bool,
+    """(statement kinds: beginD beginI read write commit, and `work` for _parse / pickle.dumps / pickle.loads)
+    Returns {"prog": tree, "caught_unpickle": [...], "caught_integrity": [...], "isolation_none": bool,
     "sql": [texts]}.  Tree nodes: ["skip"], ["stmt", kind, guarded], ["seq", a, b], ["choice", a, b],
     ["try", body, handler-names]; `guarded` marks statements inside a `try` whose handler removes the file.
     Raises Unrecognised when the source no longer has a shape this extractor understands."""
@@ -375,6 +376,11 @@ def extract(parser_file=None):
             elif isinstance(f, ast.Attribute) and f.attr == "connect":
                 kw = {k.arg: ast.unparse(k.value) for k in node.keywords}
                 info["isolation"].append(kw.get("isolation_level", "<default>"))
+            elif (isinstance(f, ast.Name) and f.id == "_parse") or \
+                    (isinstance(f, ast.Attribute) and f.attr in ("dumps", "loads") and ast.unparse(f.value) == "pickle"):
+                # text-dependent computation (the ANTLR parse, pickling): marked so that "no lock is held meanwhile"
+                # can be checked on the tree
+                found.append(["stmt", "work", guarded])
             elif isinstance(f, ast.Name) and f.id in funcs and has_sql(funcs[f.id]):
                 if depth > 3:
                     raise Unrecognised("call depth")
